@@ -129,10 +129,15 @@ def configs(tier):
     for shp, rank in [((2, 2, 2), [1, 2, 1, 1]), ((2, 2, 2), [2, 1, 2, 2]), ((2, 3, 2), [1, 1, 2, 1])] + ([] if q else [((2, 2, 2, 2), [1, 2, 1, 2, 1])]):
         for ls in ("lstsq", "normal_eq"):
             add("tr_als", shape=shp, rank=rank, ls=ls, K=2)
+    # a design matrix that is column-rank deficient by construction (bond of size 1 next to ranks larger than the mode size): LAPACK's
+    # lstsq then returns an EMPTY residual array, which only the float replay can show (the stub's residual output is arbitrary)
+    add("tr_als", shape=(2, 4, 3), rank=[3, 1, 2, 3], ls="lstsq", K=1)
     for shp, R, ns_, K_ in [((2, 2), 1, 1, 2), ((2, 2), 2, 2, 1)] + ([] if q else [((2, 2), 2, 2, 2)]):
         add("randomised", shape=shp, R=R, ns=ns_, K=K_, mode="fork", max_paths=4000)
     for R in (1, 2):
         add("cmtf", shape=(2, 2, 2), cols=2, R=R, K=2 if q else 3, mode="fork")
+        if R == 1 or not q:
+            add("cmtf", shape=(2, 2, 2), cols=2, R=R, K=2, norm=1, mode="fork")  # normalize_factors=True: both outputs renormalised after the loop
     add("parafac2", rows=(2, 2), J=2, R=1, opt="linesearch", K=7, mode="fork")
     add("parafac", shape=(2, 2, 2), R=1, opt="linesearch", K=8, mode="fork")
     add("parafac", shape=(2, 2), R=2, opt="linesearch_normalize", K=8, mode="fork")
@@ -694,10 +699,13 @@ def h_cmtf(E, cfg):
     if E.symbolic:
         backend.configure(lstsq="havoc", svd="havoc")
         backend.patch(_cp, "svd_interface", stub_svd_interface)
+        import tensorly.decomposition._cmtf_als as _cm
+
+        backend.patch(_cm, "cp_normalize", stub_cp_normalize)  # C04 contract: positive rescaling, scales into the weights
     X = E.real("X", shp)
     Y = E.real("Y", (shp[0], cols))
     tol = E.real("tol", pos=True)
-    tcp, mcp, errs = cmtf(np.array(X), np.array(Y), R, init="svd", n_iter_max=K, tol=tol)
+    tcp, mcp, errs = cmtf(np.array(X), np.array(Y), R, init="svd", n_iter_max=K, tol=tol, normalize_factors=bool(cfg.get("norm", 0)))
     w, fs = tcp
     wm, fm = mcp
     E.prove("n_errors", 1 <= len(errs) <= K)
@@ -706,7 +714,8 @@ def h_cmtf(E, cfg):
     N = dense_cp(wm, fm)
     val = sq(Xo - M) + sq(Yo - N)
     E.prove("last_reported_value_is_error_of_returned_decomposition", E.eq(errs[-1], val))
-    E.prove("coupled_factor_shared", E.eq_arrays(fs[0], fm[0]))
+    if not cfg.get("norm"):
+        E.prove("coupled_factor_shared", E.eq_arrays(fs[0], fm[0]))
 
 
 def h_randomised(E, cfg):
